@@ -8,7 +8,8 @@ package main
 //   server will ever say) and closes its sending side, then collects what the client writes until the
 //   client closes the connection.  Output:
 //     the requests the client wrote, parsed back with lal's own request reader:
-//       q:<method>:<uri>:<headers sorted>:<body>   (interleaved frames the client wrote are skipped)
+//       q:<method>:<uri>:<headers sorted>:<body>   (interleaved frames the client wrote are skipped; the
+//       list ends at the first thing the reader cannot read)
 //       with the stub's port, the local UDP ports and the User-Agent value masked, a Basic credential
 //       shown decoded, a Digest response shown as R when it is the RFC 2617 value for this request;
 //     sdp:<n>  the OnSdp callbacks; the outcome: failed (Start returned an error) / ended (the session
@@ -36,7 +37,7 @@ import (
 
 type c13CltObs struct{ n *int }
 
-func (o c13CltObs) OnSdp(sdpCtx sdp.LogicContext)    { *o.n++ }
+func (o c13CltObs) OnSdp(sdpCtx sdp.LogicContext)     { *o.n++ }
 func (o c13CltObs) OnRtpPacket(pkt rtprtcp.RtpPacket) {}
 func (o c13CltObs) OnAvPacket(pkt base.AvPacket)      {}
 
@@ -48,19 +49,6 @@ var (
 func c13Md5Hex(s string) string {
 	h := md5.Sum([]byte(s))
 	return hex.EncodeToString(h[:])
-}
-
-func c13CltGetV(s, key string) string {
-	i := strings.Index(s, key+`="`)
-	if i < 0 {
-		return ""
-	}
-	r := s[i+len(key)+2:]
-	j := strings.Index(r, `"`)
-	if j < 0 {
-		return ""
-	}
-	return r[:j]
 }
 
 func init() {
@@ -153,7 +141,6 @@ func init() {
 			}
 			q, err := rtsp.VerifReadHttpRequestMessage(r)
 			if err != nil {
-				out = append(out, "q:unreadable")
 				break
 			}
 			var hs []string
@@ -170,10 +157,29 @@ func init() {
 								v = "Basic " + string(d)
 							}
 						} else if strings.HasPrefix(v, "Digest ") {
-							// RFC 2617 without qop: response = MD5(MD5(user:realm:pass):nonce:MD5(method:uri))
-							want := c13Md5Hex(c13Md5Hex(user+":"+c13CltGetV(v, "realm")+":"+pass) + ":" + c13CltGetV(v, "nonce") + ":" + c13Md5Hex(q.Method+":"+c13CltGetV(v, "uri")))
-							if m := c13DigestRespRe.FindStringSubmatch(v); m != nil && m[1] == want {
-								v = strings.Replace(v, `response="`+want+`"`, `response="R"`, 1)
+							// RFC 2617 without qop: response = MD5(MD5(user:realm:pass):nonce:MD5(method:uri)).
+							// lal writes username, realm, nonce, uri, response, algorithm in this order; realm and nonce come
+							// from the server and may contain quotes: every way to cut them apart is tried
+							rawUrl := "rtsp://" + hostPort + "/live/x"
+							pre := `Digest username="` + user + `", realm="`
+							if m := c13DigestRespRe.FindStringSubmatch(v); m != nil && strings.HasPrefix(v, pre) {
+								suf := `", uri="` + rawUrl + `", response="` + m[1] + `"`
+								if j := strings.LastIndex(v, suf); j >= len(pre) {
+									mid := v[len(pre):j]
+									sep := `", nonce="`
+									for from := 0; ; {
+										i := strings.Index(mid[from:], sep)
+										if i < 0 {
+											break
+										}
+										realm, nonce := mid[:from+i], mid[from+i+len(sep):]
+										if m[1] == c13Md5Hex(c13Md5Hex(user+":"+realm+":"+pass)+":"+nonce+":"+c13Md5Hex(q.Method+":"+rawUrl)) {
+											v = v[:j] + `", uri="` + rawUrl + `", response="R"` + v[j+len(suf):]
+											break
+										}
+										from += i + 1
+									}
+								}
 							}
 						}
 					}
